@@ -1,9 +1,10 @@
 #!/bin/bash
-# runs every refactoring patch and prints per-patch new alarm counts plus a per-rule summary
-: > /tmp/refac_all.txt
+# runs every refactoring patch (9 sets in parallel) and prints per-patch new alarm counts plus a per-rule summary
 for i in 01 02 03 04 05 06 07 08 09; do
-  REFW=${REFW:-300} /verif/tools/refac_eval.sh /tmp/seed_C$i /tmp/refac_${i}_out >> /tmp/refac_all.txt 2>&1
+  ( REFW=${REFW:-300} /verif/tools/refac_eval.sh /tmp/seed_C$i /tmp/refac_${i}_out > /tmp/refac_all_$i.txt 2>&1 ) &
 done
+wait
+cat /tmp/refac_all_0?.txt > /tmp/refac_all.txt
 grep '^==' /tmp/refac_all.txt | awk '{s+=$3; if ($3>0) n++} END {print NR" patches, "n" with alarms, "s" alarms"}'
 grep '^==' /tmp/refac_all.txt | awk '$3>0' | tr '\n' ' '; echo
 grep -o '^  [a-z]* R[0-9A-Za-z.\-]*' /tmp/refac_all.txt | sort | uniq -c | sort -rn | head -${1:-25}
